@@ -1,4 +1,5 @@
 import SqlLineage.Model.Config
+import SqlLineage.Model.Ident
 import SqlLineage.Gen.Config
 import SqlLineage.Gen.Const
 import SqlLineage.Gen.Dispatch
